@@ -96,11 +96,26 @@ func genCase(t *rapid.T, env *ev.Env) Case {
 						{Kind: prog.OpMpuPart, Upload: prog.LastUpload, PartNo: 2, Body: body},
 						{Kind: prog.OpMpuComplete, Upload: prog.LastUpload}}
 				}
-				frag = append(build,
-					prog.Op{Kind: prog.OpTransition, B: 0, K: 0, Class: cl("fragC1")}, prog.Op{Kind: prog.OpGC},
-					prog.Op{Kind: prog.OpTransition, B: 0, K: 0, Class: cl("fragC2")}, prog.Op{Kind: prog.OpGC},
-					prog.Op{Kind: prog.OpPut, B: 0, K: 1, Body: body}, prog.Op{Kind: prog.OpDelete, B: 0, K: 0}, prog.Op{Kind: prog.OpGC},
-				)
+				if rapid.IntRange(0, 2).Draw(t, "fragRepeatVersioned") == 0 {
+					// versioned append chain over a repeated chunk: every append stores a new version that shares the
+					// prefix; then the older versions are deleted by id and only the newest one keeps the parts
+					// (seeded defect S-C12-4: one pre-acquired reference per distinct id instead of per row)
+					body2 := &gen.BodySpec{Kind: "rand", Len: 300, Seed: 12}
+					body3 := &gen.BodySpec{Kind: "rand", Len: 5, Seed: 13}
+					frag = []prog.Op{
+						{Kind: prog.OpSetVersioning, B: 0, Status: "Enabled"},
+						{Kind: prog.OpPut, B: 0, K: 2, Body: body}, {Kind: prog.OpAppend, B: 0, K: 2, Body: body},
+						{Kind: prog.OpAppend, B: 0, K: 2, Body: body2}, {Kind: prog.OpAppend, B: 0, K: 2, Body: body3},
+						{Kind: prog.OpDelete, B: 0, K: 2, Ver: "ref:0"}, {Kind: prog.OpDelete, B: 0, K: 2, Ver: "ref:1"}, {Kind: prog.OpDelete, B: 0, K: 2, Ver: "ref:2"},
+						{Kind: prog.OpGC}, {Kind: prog.OpAppend, B: 0, K: 2, Body: body3},
+					}
+				} else {
+					frag = append(build,
+						prog.Op{Kind: prog.OpTransition, B: 0, K: 0, Class: cl("fragC1")}, prog.Op{Kind: prog.OpGC},
+						prog.Op{Kind: prog.OpTransition, B: 0, K: 0, Class: cl("fragC2")}, prog.Op{Kind: prog.OpGC},
+						prog.Op{Kind: prog.OpPut, B: 0, K: 1, Body: body}, prog.Op{Kind: prog.OpDelete, B: 0, K: 0}, prog.Op{Kind: prog.OpGC},
+					)
+				}
 			}
 			var kept []prog.Op
 			for i := range frag {
